@@ -340,16 +340,18 @@ def spec(ctx, tier, seed):
     ek = engine(ctx)
     rng = random.Random(seed * 59 + 3)
     jobs = []; mod = 'harness.c15'
-    texts = TEXTS[:2] if tier == 'quick' else TEXTS + seeded_texts(rng, 3)
+    texts = TEXTS if tier == 'quick' else TEXTS + seeded_texts(rng, 9)
     for ti, text in enumerate(texts):
         for mode in ('naive', 'biodivine', 'hybrid'):
             # every combination of the ten semantics flags (2^10 per job where the code looks at all of them)
             jobs.append(Job('t%d-%s-allflags' % (ti, mode), mod, 'cli_job', {'text': text, 'mode': mode, 'free': SEM_FLAGS}, engine_key=ek, stop_after_violations=400))
     # sorting flags and heuristics with a reduced flag set
-    small = ['grounded', 'complete', 'stable', 'stable_ng', 'two_val']
+    small = ['grounded', 'complete', 'stable', 'stable_ng', 'two_val', 'stable_rew', 'stable_rew2', 'stable_pre']
     for mode in ('naive', 'biodivine', 'hybrid'):
         for sort in ('lx', 'an'):
-            jobs.append(Job('t1-%s-%s' % (mode, sort), mod, 'cli_job', {'text': TEXTS[1], 'mode': mode, 'sort': sort, 'free': small}, engine_key=ek, stop_after_violations=400))
+            jobs.append(Job('t1-%s-%s' % (mode, sort), mod, 'cli_job', {'text': TEXTS[1], 'mode': mode, 'sort': sort, 'free': small if tier == 'quick' else SEM_FLAGS}, engine_key=ek, stop_after_violations=400))
+            if tier == 'thorough':
+                jobs.append(Job('t3-%s-%s' % (mode, sort), mod, 'cli_job', {'text': texts[3], 'mode': mode, 'sort': sort, 'free': SEM_FLAGS}, engine_key=ek, stop_after_violations=400))
     for heu in ['Simple', 'MinModMinPathsMaxVarImp', 'MinModMaxVarImpMinPaths'] + (['Rand'] if tier == 'thorough' else []):
         for mode in ('naive', 'hybrid'):
             jobs.append(Job('t0-%s-heu-%s' % (mode, heu), mod, 'cli_job', {'text': TEXTS[0], 'mode': mode, 'heu': heu, 'free': ['stable_ng', 'two_val', 'grounded'], 'max_draws': 30},
@@ -364,7 +366,7 @@ def spec(ctx, tier, seed):
                                           'stdout = the text rendered by std::io::_print in program order; formatting of the crate\'s own types is executed from MIR, std formatting of str / integers is modelled',
                                           'the file system is a stub: read_to_string returns the given text'],
             'bounds': '%d well-formed input files (2-3 statements; incl. names whose lexicographic and alphanumeric orders differ) x 3 library modes x all 2^10 combinations of the semantics flags '
-                      '(symbolic); --lx / --an and --heu {Simple, MinModMinPathsMaxVarImp, MinModMaxVarImpMinPaths%s} with 3-5 symbolic flags; %d malformed files x 3 modes' %
+                      '(symbolic); --lx / --an (thorough: again with all ten flags symbolic) and --heu {Simple, MinModMinPathsMaxVarImp, MinModMaxVarImpMinPaths%s} with 3-5 symbolic flags; %d malformed files x 3 modes' %
                       (len(texts), ', Rand' if tier == 'thorough' else '', len(MALFORMED if tier == 'thorough' else MALFORMED[:2])),
             'outside': 'other input files (the semantics on all small ADFs are C01-C05, the syntax C08/C09); --import/--export/--counter, verbosity flags; clap; process exit codes other than '
                        'panic / no panic; the order of statements inside a printed line'}
